@@ -16,7 +16,7 @@ func registerC13() {
 		Rule: "PRNG interleavings of definition and data records over up to 16 local message types: redefinitions switching message, field list, sizes and byte order, the same " +
 			"message defined differently in two slots, compressed-timestamp records addressing slots 0-3 while other slots hold other definitions, developer-data definitions, and " +
 			"(1.5% per step) a data record on an undefined slot, which must be rejected with the records before it kept; every message carries a unique serial number; family long: streams of 1500-5000 records with 50% redefinitions of up to 12 fields (thousands of definitions and more than 10000 field definitions in one file) in which early definitions stay in use to the end; family chain-slots: chains of 2-3 files through DecodeChained in which a later file uses a " +
-			"local type that only an earlier file defined (definitions end with their file: must be rejected) or redefines the earlier file's slots differently; a case is " +
+			"local type that only an earlier file defined (definitions end with their file: must be rejected) or redefines the earlier file's slots differently; near-copy redefinitions include moving one entry across the boundary between field definitions and developer field descriptions with its three bytes unchanged; a case is " +
 			"non-trivial when at least two slots were live and one redefinition or an undefined-slot record occurred; distinct by stream digest",
 		Assume: []string{
 			"struct-field positions come from the hook table (C15)",
